@@ -58,8 +58,22 @@ pub fn check(property: &str) -> Option<CheckDef> {
                 "state leaks are made visible by synthetic fonts whose glyph programs read storage, CVT, function/instruction definitions and twilight points they never wrote",
             ],
         }),
+        "C14" => Some(CheckDef {
+            property: "C14",
+            level: "exploration",
+            parts: vec![
+                part(Box::new(Erased(engines::histmodels::IntSetHistory)), 120_000, 3_000_000, "C14", 60),
+                part(Box::new(Erased(engines::histmodels::SparseBitSetCodec)), 6_000, 200_000, "C14", 60),
+                part(Box::new(Erased(engines::histmodels::RangeSetHistory)), 100_000, 2_000_000, "C14", 60),
+            ],
+            assumptions: vec![
+                "integer sets are single-owner values: no schedule, clock or I/O exists for them; what is explored is operation histories against a reference model (the fault and schedule axes are empty and reported as such)",
+                "Ord is modelled as the lexicographic order of the ascending member sequences",
+                "the sparse-bit-set specification decoder is the harness's own reading of the IFT specification text",
+            ],
+        }),
         _ => None,
     }
 }
 
-pub const ALL: &[&str] = &["C07", "C12", "C18", "C19"];
+pub const ALL: &[&str] = &["C07", "C12", "C14", "C18", "C19"];
